@@ -17,12 +17,37 @@ use crate::{
 /// Per-line reference: does the line match, and the successive leftmost
 /// non-overlapping match spans inside the line's content (line-relative).
 pub fn line_reference(orc: &Oracle, input: &[u8], term: Term) -> Value {
+    line_reference_q(orc, input, term, false)
+}
+
+/// `unicode_word`: the compiled pattern contains a Unicode word boundary;
+/// lines next to invalid UTF-8 whose verdict flips when the reference regex
+/// sees them inside the buffer are flagged `quirk` (see c01::classify).
+pub fn line_reference_q(
+    orc: &Oracle,
+    input: &[u8],
+    term: Term,
+    unicode_word: bool,
+) -> Value {
     let lines = split_lines(input, term);
     let mut out = vec![];
     for (i, l) in lines.iter().enumerate() {
         let content = &input[l.start..l.content_end];
         let spans = content_spans(orc, content);
+        let mut quirk = false;
+        if unicode_word {
+            let from = l.start.saturating_sub(4);
+            if std::str::from_utf8(&input[from..l.end]).is_err() {
+                let alone = orc.line_matches(content);
+                let in_ctx = orc
+                    .re
+                    .search(&Input::new(input).span(l.start..l.content_end))
+                    .is_some();
+                quirk = alone != in_ctx;
+            }
+        }
         out.push(json!({
+            "quirk": quirk,
             "n": i + 1,
             "start": l.start,
             "end": l.end,
@@ -113,13 +138,21 @@ pub fn clicases(kind: &str, seed: u64, n: usize) -> Value {
                     &case.flags,
                 )
                 .is_ok();
+                let uw = crate::oracle::matcher_builder(&case.flags)
+                    .verif_describe(&case.patterns)
+                    .map(|(h, _)| {
+                        h.properties().look_set().contains_word_unicode()
+                    })
+                    .unwrap_or(false);
+                let lines_json =
+                    line_reference_q(&orc, &case.input, case.flags.term, uw);
                 out.push(json!({
                     "patterns": case.patterns,
                     "flags": case.flags.to_json(),
                     "args": case.flags.cli_args(),
                     "input": esc(&case.input),
                     "accepted_by_library": accepted,
-                    "lines": line_reference(&orc, &case.input, case.flags.term),
+                    "lines": lines_json,
                 }));
             }
             "c03" => {
